@@ -1,0 +1,77 @@
+// Copyright 2024, Chef.  All rights reserved.
+// https://github.com/q191201771/lal
+//
+// Use of this source code is governed by a MIT-style license
+// that can be found in the License file.
+
+package rtsp
+
+import (
+	"fmt"
+	"io"
+	"strconv"
+
+	"github.com/q191201771/lal/pkg/base"
+	"github.com/q191201771/naza/pkg/nazahttp"
+)
+
+// maxHttpMessageBodySize rtsp信令的body（比如sdp）大小上限，超过则认为对端数据非法
+const maxHttpMessageBodySize = 1024 * 1024
+
+// readHttpRequestMessage
+//
+// 功能和 nazahttp.ReadHttpRequestMessage 一致，区别是读取body之前会检查Content-Length的有效性。
+// Content-Length来自对端，负数会导致make panic，特别大的数会导致内存耗尽，整个进程退出。
+func readHttpRequestMessage(r nazahttp.HttpReader) (ctx nazahttp.HttpReqMsgCtx, err error) {
+	msgCtx, err := readHttpMessage(r)
+	if err != nil {
+		return
+	}
+	ctx.Method = msgCtx.ReqMethodOrRespVersion
+	ctx.Uri = msgCtx.ReqUriOrRespStatusCode
+	ctx.Version = msgCtx.ReqVersionOrRespReason
+	ctx.Headers = msgCtx.Headers
+	ctx.Body = msgCtx.Body
+	return
+}
+
+// readHttpResponseMessage 见 readHttpRequestMessage
+func readHttpResponseMessage(r nazahttp.HttpReader) (ctx nazahttp.HttpRespMsgCtx, err error) {
+	msgCtx, err := readHttpMessage(r)
+	if err != nil {
+		return
+	}
+	ctx.Version = msgCtx.ReqMethodOrRespVersion
+	ctx.StatusCode = msgCtx.ReqUriOrRespStatusCode
+	ctx.Reason = msgCtx.ReqVersionOrRespReason
+	ctx.Headers = msgCtx.Headers
+	ctx.Body = msgCtx.Body
+	return
+}
+
+func readHttpMessage(r nazahttp.HttpReader) (ctx nazahttp.HttpMsgCtx, err error) {
+	var firstLine string
+	firstLine, ctx.Headers, err = nazahttp.ReadHttpHeader(r)
+	if err != nil {
+		return ctx, err
+	}
+	ctx.ReqMethodOrRespVersion, ctx.ReqUriOrRespStatusCode, ctx.ReqVersionOrRespReason, err = nazahttp.ParseHttpRequestLine(firstLine)
+	if err != nil {
+		return ctx, err
+	}
+
+	contentLength := ctx.Headers.Get(nazahttp.HeaderFieldContentLength)
+	if len(contentLength) == 0 {
+		return ctx, nil
+	}
+	cl, err := strconv.Atoi(contentLength)
+	if err != nil {
+		return ctx, err
+	}
+	if cl < 0 || cl > maxHttpMessageBodySize {
+		return ctx, fmt.Errorf("%w. invalid content length. cl=%d", base.ErrRtsp, cl)
+	}
+	ctx.Body = make([]byte, cl)
+	_, err = io.ReadFull(r, ctx.Body)
+	return ctx, err
+}
